@@ -1,4 +1,5 @@
 import ClusterVerif.Spec.C02
+import ClusterVerif.Model.C02Hooks
 import Driver.Parse
 /-! C02 driver: `set`, `batch` and `net` case lines (formats in harness/c02/*.go). Core only. -/
 namespace CV.C02
@@ -923,6 +924,153 @@ def answerComp (pre post : List String) : String :=
     | _, _, _, _, _, _ => "bad-case parse-comp"
   | _ => "bad-case shape-comp"
 
+/-! ## hook / cfg suites (round 8b) -/
+open Hk in
+def parseRawOp (st : String) : Option RawOp :=
+  let body := dropS st 1
+  let f := body.splitOn "."
+  let fk (n : Nat) : RKey := if n % 2 == 0 then .notBinary n else .notCid n
+  if st.startsWith "p" || st.startsWith "f" then
+    match f with
+    | [k, c, v] =>
+      match k.toNat?, v.toNat? with
+      | some k, some v =>
+        let key : RKey := if st.startsWith "p" then .cidKey k else fk k
+        if c == "u" then some (.put key (.pin none v)) else c.toNat?.map (fun c => .put key (.pin (some c) v))
+      | _, _ => none
+    | _ => none
+  else if st.startsWith "g" then
+    match f with
+    | [k, n] => match k.toNat?, n.toNat? with
+      | some k, some n => some (.put (.cidKey k) (.garbage n))
+      | _, _ => none
+    | _ => none
+  else if st.startsWith "d" then body.toNat?.map (fun k => .del (.cidKey k))
+  else if st.startsWith "e" then body.toNat?.map (fun k => .del (fk k))
+  else none
+
+open Hk in
+def showCall : Call → String
+  | .track (some c) v => "T" ++ toString c ++ "." ++ toString v
+  | .track none v => "Tu." ++ toString v
+  | .untrack c => "N" ++ toString c
+
+def showList (l : List (Nat × Nat)) : String :=
+  if l.isEmpty then "-" else ",".intercalate ((sortPairs l).map (fun p => toString p.1 ++ "." ++ toString p.2))
+
+open Hk in
+/-- is the step a pin/unpin as `State.Add/Rm` write it (the operations the property quantifies over) -/
+def rawWellFormed : RawOp → Bool
+  | .put (.cidKey c) (.pin (some c') _) => c == c'
+  | .del (.cidKey _) => true
+  | _ => false
+
+open Hk in
+def answerHook (pre post : List String) : String :=
+  match pre, post with
+  | [_, script], [outsW] =>
+    match (splitSemi script).mapM parseRawOp with
+    | none => "bad-case script"
+    | some ops =>
+      let outs := splitSemi outsW
+      if outs.length != ops.length then "bad-case outputs" else
+      -- model
+      let sim := ops.foldl (fun (acc : RStore × List String) op =>
+        let r := rawStep acc.1 op
+        (r.1, acc.2 ++ [(if r.2.isEmpty then "-" else ",".intercalate (r.2.map showCall)) ++ "/" ++ showList (rawList r.1)])) ([], [])
+      -- Spec clause on the implementation's outputs: every change of the listed pinset caused by a pin/unpin
+      -- operation comes with the tracker call saying what the pinset now holds
+      let obs := outs.map (fun o => match o.splitOn "/" with
+        | [c, l] => (if c == "-" then [] else c.splitOn ",", (parsePairs l).getD [])
+        | _ => ([], []))
+      let informed := ((ops.zip obs).foldl (fun (acc : List (Nat × Nat) × Bool) (x : RawOp × (List String × List (Nat × Nat))) =>
+        let before := acc.1
+        let after := x.2.2
+        let keys := ((before ++ after).map (·.1)).eraseDups
+        let ok := !rawWellFormed x.1 || keys.all (fun k =>
+          let b := before.lookup k
+          let a := after.lookup k
+          b == a || (match a with
+            | some v => x.2.1.contains ("T" ++ toString k ++ "." ++ toString v)
+            | none => x.2.1.contains ("N" ++ toString k)))
+        (after, acc.2 && ok)) ([], true)).2
+      let arm := "hook" ++ (if ops.any (fun o => match o with | .put _ (.garbage _) => true | _ => false) then "-garbage" else "") ++
+        (if ops.any (fun o => match o with | .put (.cidKey _) (.pin none _) => true | _ => false) then "-nocid" else "") ++
+        (if ops.any (fun o => match o with | .put (.cidKey c) (.pin (some c') _) => c != c' | _ => false) then "-othercid" else "") ++
+        (if ops.any (fun o => match o with | .put (.notBinary _) _ => true | .put (.notCid _) _ => true | .del (.notBinary _) => true | .del (.notCid _) => true | _ => false) then "-foreign" else "") ++
+        (if ops.any (fun o => match o with | .del _ => true | _ => false) then "-del" else "")
+      if !informed then "propfail tracker_informed arm=" ++ arm ++ " model=" ++ (if sim.2 == outs then "agree" else "differ")
+      else if sim.2 != outs then "diff arm=" ++ arm ++ " model=" ++ ";".intercalate sim.2
+      else "ok arm=" ++ arm
+  | _, _ => "bad-case shape-hook"
+
+open Hk in
+def answerCfg (pre post : List String) : String :=
+  match pre with
+  | [_, c] =>
+    match c.splitOn ",", kvArg "err=" post, kvArg "en=" post, kvArg "eff=" post with
+    | [sz, ag, qu], some err, some en, some eff =>
+      match sz.toInt?, (if ag == "-" then some none else ag.toInt?.map some), (if qu == "-" then some 0 else qu.toInt?) with
+      | some size, some age, some queue =>
+        let m := loadJSON size age queue
+        let want := "err=" ++ (if m.valid then "0" else "1") ++ " en=" ++ (if m.enabled then "1" else "0") ++
+          " eff=" ++ toString m.size ++ "," ++ toString m.age ++ "," ++ toString m.queue
+        let got := "err=" ++ err ++ " en=" ++ en ++ " eff=" ++ eff
+        let arm := "cfg-" ++ (if !m.valid then "invalid" else if m.enabled then (if m.size == 1 then "size1" else "enabled") else
+          (if m.size ≤ 0 then "off-size" else "off-age")) ++ (if age.isNone then "-noage" else "") ++ (if queue == 0 then "-defqueue" else "")
+        -- Spec: a configuration that was accepted and enables batching has room for at least one operation
+        if err == "0" && en == "1" && ((eff.splitOn ",").getLast?.bind String.toInt?).any (· ≤ 0) then "propfail refused_no_effect arm=" ++ arm
+        else if want != got then "diff arm=" ++ arm ++ " model=" ++ want
+        else "ok arm=" ++ arm
+      | _, _, _ => "bad-case cfg-values"
+    | _, _, _, _ => "bad-case parse-cfg"
+  | _ => "bad-case shape-cfg"
+
+/-! ## shut suite (round 8b): Shutdown with an open batch; the model is `step` + `Hk.shutdown` -/
+def parseShutOp (st : String) : Option BOp :=
+  if st.startsWith "P" then (parsePair "." (dropS st 1)).map (fun p => BOp.put p.1 p.2)
+  else if st.startsWith "U" then (dropS st 1).toNat?.map BOp.del
+  else none
+
+/-- the eager worker: log, take, and commit as soon as the batch is full (all writes succeed) -/
+def shutSubmit (cfg : Cfg) (acc : Option (St × String)) (o : BOp) : Option (St × String) :=
+  match acc with
+  | none => none
+  | some (s, res) =>
+    match step cfg s (.log o) with
+    | some (s1, .accepted) =>
+      match step cfg s1 (.take true) with
+      | some (s2, _) =>
+        match s2.phase with
+        | .due _ => (step cfg s2 (.commit .ok)).map (fun r => (r.1, res ++ "o"))
+        | .idle => some (s2, res ++ "o")
+      | none => none
+    | some (s1, _) => some (s1, res ++ "r")
+    | none => none
+
+def answerShut (pre post : List String) : String :=
+  match pre with
+  | [cfgW, script] =>
+    match (dropS cfgW 1).toNat?, (splitSemi script).mapM parseShutOp, kvArg "res=" post, kvArg "fin=" post with
+    | some size, some ops, some res, some finW =>
+      match parsePairs finW with
+      | none => "bad-case fin"
+      | some fin =>
+        if !cfgW.startsWith "Z" || size == 0 then "bad-case cfg" else
+        match ops.foldl (shutSubmit { maxSize := size, qcap := 50 }) (some ({}, "")) with
+        | none => "bad-case model-stuck"
+        | some (s, mres) =>
+          let keys := ops.map BOp.key
+          let lost := s.curSize
+          let s := Hk.shutdown s
+          let view := viewOf s.rep keys
+          let arm := "shut-size" ++ toString size ++ (if lost == 0 then "-nothing-open" else "-open-batch-lost")
+          if (if res == "-" then "" else res) != mres then "diff arm=" ++ arm ++ " model=res:" ++ mres
+          else if sortPairs fin != view then "diff arm=" ++ arm ++ " model=fin:" ++ showList view
+          else "ok arm=" ++ arm ++ (if ops.isEmpty then " trivial" else "")
+    | _, _, _, _ => "bad-case parse-shut"
+  | _ => "bad-case shape-shut"
+
 def answer (ws : List String) : String :=
   match splitArrow ws with
   | none => "bad-case no-arrow"
@@ -933,6 +1081,9 @@ def answer (ws : List String) : String :=
     | "net" :: rest => answerNet rest post
     | "val" :: rest => answerVal rest post
     | "comp" :: rest => answerComp rest post
+    | "hook" :: rest => answerHook rest post
+    | "cfg" :: rest => answerCfg rest post
+    | "shut" :: rest => answerShut rest post
     | _ => "bad-case unknown-suite"
 
 end CV.C02
